@@ -23,6 +23,9 @@ Verdict(i) ==
   \cup B("UsageAgrees", UsageAgrees, pre, post, first)
   \cup B("VipInjective", VipInjective, pre, post, first)
   \cup B("VipPoolDisjoint", VipPoolDisjoint, pre, post, first)
+  \cup B("AdvertisedVipCurrentProxy", AdvertisedVipCurrentProxy, pre, post, first)
+  \cup B("AdvertisedVipCurrentOwn", AdvertisedVipCurrentOwn, pre, post, first)
+  \cup B("AdvertisedVipCurrentGateway", AdvertisedVipCurrentGateway, pre, post, first)
   \cup (IF CascadeComplete(pre, post) THEN {} ELSE {"CascadeComplete"})
 TInit == l = 1
 TNext == /\ l <= Len(Trace)
